@@ -97,6 +97,12 @@ def plan(tier):
     extra.append(dict(common, name='start_future', vectors=sf, concrete=[(sf[0], [0, 0]), (sf[1], [3, 3])],
                       space='hand-written programs in which a running coroutine starts a child as a future (async::start(), step 10; the child finishes at once) after having made other coroutines ready '
                             'by detach / promise resolution: %s' % sf, bounds='9 programs'))
+    uw = [vec(p) for p in progs if any(o in (7, 8) for s in p[1] for o in s)]
+    if quick: uw = uw[::3]
+    extra.append(dict(common, name='unwind_resolve', entry='h_prog_unwind', vectors=uw, concrete=[([0, 1, 7], [8, 8]), ([0, 2, 0, 0, 1, 7, 1, 7], [4, 4])],
+                      space='the programs of unit `programs` that await a future%s; the harness resolves the promises still pending at the end from ordinary code WHILE AN EXCEPTION IS PROPAGATING '
+                            '(a scope guard resolving during stack unwinding): still normal mode, the waiter must run at once and nothing may be left in the queue' % (' (every third)' if quick else ''),
+                      bounds='as unit programs'))
     return extra + [
         dict(common, name='programs', vectors=[vec(p) for p in progs], concrete=conc,
              space=space + '. Steps: %s; a script ends with the coroutine finishing; promises still pending at the end are resolved by the harness (each a new outermost activation)' % (OPS,),
